@@ -5,6 +5,7 @@ package main
 // Every decode of the harness is repeated through these shapes and the meshes are compared bit for bit.
 
 import (
+	"errors"
 	"fmt"
 	"hash/fnv"
 	"io"
@@ -152,6 +153,78 @@ func shapeCheck(what string, data []byte, refOK bool, refDigest string, decode f
 		}
 		if dg != refDigest {
 			return fmt.Sprintf("%s returns a different mesh when the input arrives as %s", what, sh.name)
+		}
+	}
+	return ""
+}
+
+// ---- retained results: what a decoder returned must not change when the decoder is called again (results that
+// alias a buffer the package reuses would) ----
+
+type retained struct {
+	what   string
+	m      modeling.Mesh
+	digest string
+}
+
+var retainedResults = map[string][]retained{}
+
+// retainCheck re-reads the results kept from earlier calls of the codec (at most four, large ones one), reports the
+// first that changed, then keeps m.
+func retainCheck(codec string, m modeling.Mesh, digest string) string {
+	fail := ""
+	for _, r := range retainedResults[codec] {
+		if meshDigest(r.m) != r.digest && fail == "" {
+			fail = fmt.Sprintf("the mesh an earlier %s call returned changed after a later call (%s)", codec, r.what)
+		}
+	}
+	keep := retainedResults[codec]
+	if m.AttributeLength() > 2000 {
+		keep = nil
+	}
+	keep = append(keep, retained{what: fmt.Sprintf("%d points", m.AttributeLength()), m: m, digest: digest})
+	if len(keep) > 4 {
+		keep = keep[len(keep)-4:]
+	}
+	retainedResults[codec] = keep
+	return fail
+}
+
+// ---- writers: a failing destination ----
+
+type failingWriter struct {
+	left int // accepts this many bytes, then fails
+}
+
+var errDiskFull = errors.New("c15 harness: destination full")
+
+func (w *failingWriter) Write(p []byte) (int, error) {
+	if len(p) <= w.left {
+		w.left -= len(p)
+		return len(p), nil
+	}
+	n := w.left
+	w.left = 0
+	return n, errDiskFull
+}
+
+// writeFailCheck: a writer that cannot store the whole output must make the encoder return an error.
+func writeFailCheck(what string, total int, write func(io.Writer) error) string {
+	if total == 0 {
+		return ""
+	}
+	for _, k := range []int{0, total / 2, total - 1} {
+		var err error
+		func() {
+			defer func() {
+				if rec := recover(); rec != nil {
+					err = fmt.Errorf("panic: %v", rec)
+				}
+			}()
+			err = write(&failingWriter{left: k})
+		}()
+		if err == nil {
+			return fmt.Sprintf("%s returned no error although the destination accepted only %d of %d bytes", what, k, total)
 		}
 	}
 	return ""
